@@ -917,6 +917,32 @@ where
             self.evict_expired(deqs, batch_size::EVICTION_BATCH_SIZE, counters);
         }
 
+        // Cause probe: the candidate still finds no room although a dead (expired or
+        // invalidated) entry is held somewhere behind a live one, where the purge
+        // scan, which stops at the first live node, cannot reach it.
+        #[cfg(mini_moka_verif)]
+        if crate::verif::active()
+            && !self.has_enough_capacity(new_weight, counters)
+            && (self.has_expiry() || self.has_valid_after())
+        {
+            let now = self.current_time_from_expiration_clock();
+            let (ttl, tti, va) = (&self.time_to_live, &self.time_to_idle, &self.valid_after());
+            let mut errs = Vec::new();
+            let dead_ao = deqs
+                .probation
+                .verif_walk("probation", &mut errs)
+                .iter()
+                .any(|n| is_expired_entry_ao(tti, va, unsafe { n.as_ref() }, now));
+            let dead_wo = deqs
+                .write_order
+                .verif_walk("write_order", &mut errs)
+                .iter()
+                .any(|n| is_expired_entry_wo(ttl, va, unsafe { n.as_ref() }, now));
+            if dead_ao || dead_wo {
+                crate::verif::probe("cause.no_room_with_dead_resident", kh.hash);
+            }
+        }
+
         if self.has_enough_capacity(new_weight, counters) {
             // There are enough room in the cache (or the cache is unbounded).
             // Add the candidate to the deques.
@@ -1234,6 +1260,12 @@ where
                 .cache
                 .remove_if(key, |_, v| is_expired_entry_ao(tti, va, v, now));
 
+            // Cause probe: an expired node cannot be released because its map entry
+            // is already gone and the op that removes it is still queued.
+            #[cfg(mini_moka_verif)]
+            if maybe_entry.is_none() && !self.cache.contains_key(key) {
+                crate::verif::probe("cause.expired_node_pending_remove", 0);
+            }
             if let Some((_k, entry)) = maybe_entry {
                 Self::handle_remove_with_deques(deq_name, deq, write_order_deq, entry, counters);
             } else if !self.try_skip_updated_entry(key, deq_name, deq, write_order_deq) {
@@ -1324,6 +1356,8 @@ where
                 // invalidated ValueEntry (which should be still in the write op
                 // queue) has a pointer to this node, move the node to the back of
                 // the deque instead of popping (dropping) it.
+                #[cfg(mini_moka_verif)]
+                crate::verif::probe("cause.expired_node_pending_remove", 0);
                 deqs.write_order.move_front_to_back();
             }
         }
